@@ -26,6 +26,15 @@ type Ctx struct {
 }
 
 func NewCtx(p *core.Program, r *core.Report, tier string) *Ctx {
+	for _, pkg := range p.All {
+		if pkg.PkgPath == "math/big" {
+			for _, n := range []string{"Int", "Rat"} {
+				if tn, ok := pkg.Types.Scope().Lookup(n).(*types.TypeName); ok {
+					bigPkgTypes[n], _ = tn.Type().(*types.Named)
+				}
+			}
+		}
+	}
 	return &Ctx{P: p, M: model.Build(p), R: r, Tier: tier, reach: map[string]map[*ssa.Function]*ssa.Function{}}
 }
 
